@@ -12,6 +12,10 @@
 //         deadline it does not report timeout; the pred form returns pred()
 //   stop  wait(lock, stop_token, pred) returns once stop is requested (false), returns true when pred is set,
 //         returns pred() at once when stop was requested before
+//   timed_stop  wait_for / wait_until (lock, stop_token, t, pred): returns pred() owning the lock; at once when stop
+//         was requested before the call or is requested between the callback registration and the re-check (from
+//         inside the first pred()); otherwise at the deadline at the latest (on tasks a timed wait sleeps until its
+//         deadline, notified or not) and — when nobody set the predicate or requested stop — not before it
 //   slow  (c07_rt <seed> <n> slow) user lock whose unlock() stays busy 1..2 ms after releasing the mutex, notifier
 //         blocked on that mutex notifies as soon as it owns it: every waiter registered before must wake
 // A round that does not complete within the watchdog is a lost notification.
@@ -356,6 +360,113 @@ static Outcome run_stop(int variant, int K, Rng& rng)
 }
 
 // ---------------------------------------------------------------------------------------------------
+// timed stop-token wait: condition_variable_any::wait_for / wait_until (lock, stop_token, t, pred).
+// What the code guarantees on pika tasks (a timed cv wait yields inside sleep_until until its deadline; a
+// notification only changes the reason reported by the detail layer):
+//   variant 0 "stop_after_reg"  request_stop by a thread that saw the waiter registered (counter under U, so the waiter
+//             has passed the re-check and released U): returns pred() (= false) at the deadline at the latest
+//   variant 1 "pred_notify"     predicate set + notify_all before the deadline: returns true at the deadline at the latest
+//   variant 2 "nobody"          nobody notifies: returns pred() = false, not before the deadline
+//   variant 3 "stop_on_entry"   stop requested before the call: returns pred() (true or false) at once
+//   variant 4 "stop_in_pred"    the first evaluation of pred() (made after the stop_callback was constructed, before
+//             the re-check under the internal lock) requests stop: the re-check sees it, returns false at once
+//   variant 5 "pred_on_entry"   predicate already true: returns true at once
+// "at once" = within half of a 3 s deadline.  Every return: value == pred(), user lock owned; a false return
+// without stop requested only at/after the deadline.
+template <typename MakeLock>
+static Outcome run_timed_stop(int variant, int K, bool until_form, Rng& rng, MakeLock make_lock)
+{
+    struct Shared
+    {
+        pika::mutex m;
+        pika::condition_variable_any cv;
+        pika::stop_source ss;
+        bool flag = false;
+        int registered = 0;
+        int inside = 0;
+        std::atomic<int> done{0}, bad_val{0}, bad_exp{0}, bad_own{0}, early{0}, late{0}, occ_bad{0}, nostop{0};
+    };
+    auto sh = std::make_shared<Shared>();
+    Outcome out;
+    bool const at_once = variant >= 3;
+    int const dur_ms = at_once ? 3000 : 40 + (int) rng.below(50);
+    bool const flag0 = variant == 5 || (variant == 3 && rng.chance(1, 2));
+    sh->flag = flag0;
+    if (variant == 3) sh->ss.request_stop();
+    std::vector<pika::thread> th;
+    for (int t = 0; t < K; ++t)
+        th.emplace_back([sh, variant, until_form, dur_ms, at_once, make_lock, delay = rng.below(100)] {
+            spin_for_ns(delay * 1000);
+            auto lk = make_lock(sh->m);
+            lk.lock();
+            ++sh->registered;
+            int calls = 0;
+            auto pred = [&] {
+                // user code, called with U held
+                if (variant == 4 && calls++ == 0) sh->ss.request_stop();
+                return sh->flag;
+            };
+            auto t0 = clk::now();
+            bool r = until_form ? sh->cv.wait_until(lk, sh->ss.get_token(), t0 + std::chrono::milliseconds(dur_ms), pred) :
+                                  sh->cv.wait_for(lk, sh->ss.get_token(), std::chrono::milliseconds(dur_ms), pred);
+            auto el = std::chrono::duration_cast<std::chrono::microseconds>(clk::now() - t0).count();
+            // U is held again (checked below): flag is read under U.  The flag is only ever set, stop only ever requested.
+            bool const stopped = sh->ss.stop_requested();
+            if (r != sh->flag) ++sh->bad_val;                                   // returns the value of the predicate
+            // false means: deadline reached, or stop requested (also when the helper was slow and this waiter's
+            // deadline passed before the request / the predicate write)
+            if (!r && !stopped && el < dur_ms * 1000L - 200) ++sh->early;
+            bool expect = variant == 5 || (variant == 3 && sh->flag);
+            if (variant >= 2 && r != expect) ++sh->bad_exp;                     // variants 0/1: covered by the two rules above
+            if ((variant == 3 || variant == 4) && !stopped) ++sh->nostop;       // requested by this very task before / inside
+            if (at_once && el > dur_ms * 500L) ++sh->late;
+            if (!lk.owns_lock() || !owns(sh->m)) ++sh->bad_own;
+            if (++sh->inside != 1) ++sh->occ_bad;
+            spin_for_ns(300);
+            --sh->inside;
+            lk.unlock();
+            ++sh->done;
+            ++g_heartbeat;
+        });
+    if (variant == 0 || variant == 1)
+    {
+        int want = 1 + (int) rng.below(K);
+        bool under = rng.chance(1, 2);
+        wait_until_true([&] { std::unique_lock<pika::mutex> lk(sh->m); return sh->registered >= want; }, 4000);
+        // every registered waiter has released U, i.e. it is past the re-check and queued (or returned already)
+        if (variant == 0)
+        {
+            if (under) { std::unique_lock<pika::mutex> lk(sh->m); sh->ss.request_stop(); }
+            else sh->ss.request_stop();
+        }
+        else
+        {
+            std::unique_lock<pika::mutex> lk(sh->m);
+            sh->flag = true;
+            if (!under) lk.unlock();
+            sh->cv.notify_all();
+        }
+    }
+    // the deadline is at most dur_ms after the last waiter's call; generous watchdog on top
+    if (!wait_until_true([&] { return sh->done.load() >= K; }, dur_ms + 6000))
+    {
+        std::printf("OUT RT %d ok=0 detail=timed stop-token wait did not return by its deadline + 6 s (%d of %d returned)\n", g_case.load(),
+            sh->done.load(), K);
+        std::fflush(stdout);
+        _exit(0);
+    }
+    for (auto& x : th) x.join();
+    if (sh->bad_val) out.fail("timed stop-token wait returned a value different from pred()");
+    if (sh->bad_exp) out.fail("timed stop-token wait returned a wrong value");
+    if (sh->nostop) out.fail("timed stop-token wait: stop_requested() false after the request");
+    if (sh->early) out.fail("timed stop-token wait returned false before its deadline although stop was not requested");
+    if (sh->late) out.fail("timed stop-token wait returned late: stop requested before the re-check / predicate true on entry must return at once");
+    if (sh->bad_own) out.fail("timed stop-token wait returned without owning the user lock");
+    if (sh->occ_bad) out.fail("two tasks inside the user lock after the timed stop-token wait returned");
+    return out;
+}
+
+// ---------------------------------------------------------------------------------------------------
 // predicate wait: notifications arrive while the predicate is still false; the wait must not return before
 // the predicate has been set
 static Outcome run_pred(int K, bool any, Rng& rng)
@@ -601,7 +712,7 @@ int pika_main()
     {
         g_case = cs;
         g_pert = rng.next() | 1;
-        unsigned kind = (unsigned) rng.below(11);
+        unsigned kind = (unsigned) rng.below(12);
         int K = 1 + (int) rng.below(10);
         Outcome o;
         std::ostringstream in;
@@ -632,6 +743,20 @@ int pika_main()
             std::printf("%s\n", in.str().c_str());
             std::fflush(stdout);
             o = run_timed(variant, rng);
+        }
+        else if (kind == 11)
+        {
+            static char const* const vn[] = {"stop_after_reg", "pred_notify", "nobody", "stop_on_entry", "stop_in_pred", "pred_on_entry"};
+            int variant = (int) rng.below(6);
+            bool until_form = rng.chance(1, 2);
+            bool custom = rng.chance(1, 2);
+            int Kt = 1 + (int) rng.below(4);
+            in << "IN RT " << cs << " kind=timed_stop variant=" << vn[variant] << " K=" << Kt << " form=" << (until_form ? "wait_until" : "wait_for")
+               << " lock=" << (custom ? 'C' : 'M');
+            std::printf("%s\n", in.str().c_str());
+            std::fflush(stdout);
+            if (custom) o = run_timed_stop(variant, Kt, until_form, rng, [](pika::mutex& m) { return custom_lock(m); });
+            else o = run_timed_stop(variant, Kt, until_form, rng, [](pika::mutex& m) { return std::unique_lock<pika::mutex>(m, std::defer_lock); });
         }
         else if (kind == 10)
         {
